@@ -176,6 +176,32 @@ async def _run(n0, cycles):
     return {"cycles": outs, "identity_ok": identity_ok and all(o["probe_ok"] for o in outs), "raw": raw}
 
 
+async def _reopen_session(closes, fails):
+    """The user closes the connection and opens it again (the same Connection object) `closes` times; then the connection is lost
+    (end of stream) with `fails` failing reconnect attempts.  Returns the open attempts logged after the loss and whether the
+    protocol is connected again."""
+    log, transports = [], []
+    script = [True] * (closes + 1) + [False] * fails + [True]
+    conn, proto = CI.make_connection(script, log, transports)
+    await conn.connect()
+    await PI.settle(20)
+    for _ in range(closes):
+        await asyncio.wait_for(conn.close(), timeout=300)
+        await PI.settle(10)
+        await conn.connect()
+        await PI.settle(20)
+    n = len(log)
+    transports[-1][0].feed_eof()
+    for _ in range(25 * (fails + 1)):
+        await asyncio.sleep(1)
+        if len(transports) > closes + 1 and proto.connected.is_set():
+            break
+    opens = [bool(e[2]) for e in log[n:] if e[0] == "open"]
+    connected = proto.connected.is_set()
+    await asyncio.wait_for(conn.close(), timeout=300)
+    return {"opens": opens, "connected": connected}
+
+
 class C11(Prop):
     id = "C11"
     prop_file = "Props/C11.v"
@@ -208,11 +234,37 @@ class C11(Prop):
         return cases
 
     def run_impl(self, c):
+        if c.get("kind") == "reopen":
+            return self._reopen_run(c)
         r = vloop.run(_run, c["n0"], c["cycles"])
         c["_devices"] = [o["devices"] for o in r["cycles"]]
         c["_raw"] = r["raw"]        # (the chronological log is judged by the monitor; it is no part of the per-cycle behaviour)
         return {"outs": [o["out"] for o in r["cycles"]], "identity_ok": r["identity_ok"],
                 "no_leftover_tasks": all(o["other_tasks"] == 0 for o in r["cycles"])}
+
+    def extra_checks(self, tier, rng):
+        """a Connection that was closed and opened again recovers from a loss like a fresh one"""
+        fails_list = []
+        self._reopen_sessions = 0
+        for closes in (1, 2):
+            for fails in (0, 1, 2):
+                c = {"kind": "reopen", "closes": closes, "fails": fails}
+                b = self._reopen_run(c)
+                self._reopen_sessions += 1
+                if not self._reopen_ok(c, b):
+                    fails_list.append({"case": c, "impl": b, "reason": "after close() and connect() on the same Connection object a lost "
+                                       "connection is not re-established by the reconnect routine (attempts until one succeeds)"})
+        return fails_list
+
+    def _reopen_run(self, c):
+        return vloop.run(_reopen_session, c["closes"], c["fails"])
+
+    @staticmethod
+    def _reopen_ok(c, b):
+        return b["opens"] == [False] * c["fails"] + [True] and b["connected"]
+
+    def extra_coverage(self):
+        return {"reopen_sessions": getattr(self, "_reopen_sessions", 0)}
 
     def _cin(self, c):
         # devices known at each loss: observed once from the traffic (ecoMAX and/or ecoSTER frames seen so far)
@@ -235,11 +287,15 @@ class C11(Prop):
         return out
 
     def model_many(self, cases):
+        if cases and all(c.get("kind") == "reopen" for c in cases):
+            return [None] * len(cases)
         res = model.call_many("run_conn", [[True, self._cin(c)] for c in cases])
         fix = lambda o: [o[0], o[1], [[g, bool(k)] for g, k in o[2]], o[3], o[4], o[5], o[6]]
         return [{"outs": [fix(o) for o in r], "identity_ok": True, "no_leftover_tasks": True} for r in res]
 
     def spec_many(self, cases, behaviours):
+        if cases and all(c.get("kind") == "reopen" for c in cases):
+            return [self._reopen_ok(c, b) for c, b in zip(cases, behaviours)]
         res = model.call_many("P11", [[self._cin(c), b["outs"]] for c, b in zip(cases, behaviours)])
         # the whole chronological history (not cut into cycles) against the monitor of the event-level model (C11_sm)
         mon = model.call_many("mon11", [c.get("_raw", []) for c in cases])
